@@ -19,7 +19,7 @@ pub(crate) open spec fn synthetic_from_set<'l, Data>(extra: &AdditionalLifecycle
 
 impl<'l, Data> EventLoop<'l, Data> {
 //@ slice src/loop_logic.rs / impl EventLoop<'l, Data> / fn dispatch_events :: stmts <<let now = Instant::now();>> .. <<let events = {>> props=C14,C12 name=EventLoop::dispatch_events::before_sleep_and_wait
-//@ rw R12 1 <<Duration::ZERO>> => <<crate::ext_dur::duration_zero()>>
+//@ rw R12 * <<Duration::ZERO>> => <<crate::ext_dur::duration_zero()>>
 //@ rw R11 1 <<for source in &mut *extra_lifecycle_sources.values>> => <<for source in lit: extra_lifecycle_sources.values.iter()>>
 //@ rw R13 1 <<Ok(events) => break events,>> => <<Ok(events) => { return Ok(()); }>>
 //@ rw R10 1 <<self .handle .inner .sources_with_additional_lifecycle_events .borrow_mut()>> => <<extra_cell>>
@@ -58,7 +58,6 @@ fn before_sleep_and_wait(&mut self, extra_cell: &AdditionalLifecycleEventsSet, s
         },
 //@ entry
     let ghost timeout0 = timeout;
-    let ghost mut origin: Seq<int> = Seq::empty();
     proof { broadcast use crate::ext_dur::axiom_duration_cmp; }
 //@ loop 1
         invariant
@@ -70,33 +69,20 @@ fn before_sleep_and_wait(&mut self, extra_cell: &AdditionalLifecycleEventsSet, s
             self.synthetic_events@.len() == old(self).synthetic_events@.len() ==> timeout == timeout0,
             self.synthetic_events@.len() >= old(self).synthetic_events@.len(),
             forall|k: int| 0 <= k < old(self).synthetic_events@.len() ==> self.synthetic_events@[k] == old(self).synthetic_events@[k],
-            // origin[j]: index (in the lifecycle set) of the source that returned the j-th synthetic event queued here
-            origin.len() == self.synthetic_events@.len() - old(self).synthetic_events@.len(),
-            forall|j: int| 0 <= j < origin.len() ==> 0 <= #[trigger] origin[j] < extra_cell@.len()
-                && disp_of(sources_cell, extra_cell@[origin[j]]).w_synthetic(
-                        self.synthetic_events@[old(self).synthetic_events@.len() + j].readiness, self.synthetic_events@[old(self).synthetic_events@.len() + j].token),
-//@ after <<self.synthetic_events.push(PollEvent { readiness, token });>>
-                        // ghost bookkeeping: the event just queued was returned by the source of the current lifecycle entry
-                        proof { origin = origin.push(lit.index@ as int); }
+            forall|k: int| old(self).synthetic_events@.len() <= k < self.synthetic_events@.len() ==>
+                synthetic_from_set(extra_cell, sources_cell, #[trigger] self.synthetic_events@[k]),
+//@ after <<self.synthetic_events.push(>>
+                        // C14: the event just queued is the one returned by the source of the current lifecycle entry (this is
+                        // also the witness for the existential in synthetic_from_set)
+                        assert(disp_of(sources_cell, extra_cell@[lit.index@]).w_synthetic(self.synthetic_events@.last().readiness, self.synthetic_events@.last().token)); /*@props C14*/
 //@ loop 2
         invariant
             self.synthetic_events@ == synth1,
-            first ==> timeout == timeout1,
-            !first ==> poll_cell.w_polled(timeout1),
+            // either no wait has happened yet and the timeout is still the one computed above, or the first wait used it
+            timeout == timeout1 || poll_cell.w_polled(timeout1),
 //@ before <<let events = {>>
         let ghost synth1 = self.synthetic_events@;
         let ghost timeout1 = timeout;
-        let ghost mut first = true;
-        proof {
-            assert forall|k: int| old(self).synthetic_events@.len() <= k < self.synthetic_events@.len() implies
-                synthetic_from_set(extra_cell, sources_cell, #[trigger] self.synthetic_events@[k]) by {
-                let j = k - old(self).synthetic_events@.len();
-                assert(0 <= origin[j] < extra_cell@.len());
-                assert(disp_of(sources_cell, extra_cell@[origin[j]]).w_synthetic(self.synthetic_events@[k].readiness, self.synthetic_events@[k].token));
-            }
-        }
-//@ after <<let result = poll.poll(timeout);>>
-                proof { first = false; }
 //@ tail
     Ok(())
 //@ endslice
